@@ -2200,11 +2200,28 @@ func (ctx Ctx) globalVarDecl(d *ast.GenDecl) []coq.Decl {
 			continue // nothing can refer to a blank constant or variable
 		}
 		for _, val := range vs.Values {
-			if ctx.info.Types[val].Value == nil {
-				// the Definition is re-evaluated at every use: make, new, &
-				// or a call would give each mention its own map or cell
-				ctx.unsupported(val, "global variable initialized with a non-constant expression")
-			}
+			// the Definition is re-evaluated at every use: make, new, &, a
+			// slice literal or a call would give each mention its own map or
+			// cell (a struct value is the same value every time)
+			ast.Inspect(val, func(n ast.Node) bool {
+				switch n := n.(type) {
+				case *ast.CallExpr:
+					if !ctx.info.Types[n.Fun].IsType() {
+						ctx.unsupported(n, "global variable initialized with a call")
+					}
+				case *ast.UnaryExpr:
+					if n.Op == token.AND {
+						ctx.unsupported(n, "global variable initialized with an allocation")
+					}
+				case *ast.CompositeLit:
+					if _, isStruct := ctx.typeOf(n).Underlying().(*types.Struct); !isStruct {
+						ctx.unsupported(n, "global variable initialized with an allocation")
+					}
+				case *ast.FuncLit:
+					return false
+				}
+				return true
+			})
 		}
 		ctx.dep.addName(vs.Names[0].Name)
 		specs = append(specs, ctx.constSpec(vs))
